@@ -272,6 +272,9 @@ def run(args):
         ("takes_opt", [{"k": "opt", "some": I(1)}], True, "true"),
         ("takes_opt", [{"k": "opt", "some": S_("x")}], False, None),
         ("takes_opt", [{"k": "opt"}], True, "false"),
+        # a bare value offered for an optional parameter: refused, or admitted AS the option (the function must be able to use it)
+        ("takes_opt", [I(5)], None, "true"),
+        ("takes_opt", [S_("x")], False, None),
     ]
     res = pool.map([{"op": "run", "id": i, "a": {"modules": {"main": lib}, "entry": "main", "backend": "vm",
                                                  "invoke": [{"fn": fn, "args": args}]}} for i, (fn, args, ok, ret) in enumerate(host)],
@@ -285,6 +288,8 @@ def run(args):
             continue
         r = rr["r"]
         call = r["calls"][0]
+        if ok is None:          # either answer of the boundary is fine, a crash or a half-admitted value is not
+            ok = "refused" not in call
         if ok:
             got = call.get("ret")
             shown = None if got is None else (got.get("v") if got["k"] != "bool" else ("true" if got["v"] else "false"))
